@@ -138,6 +138,17 @@ def check(repo: Repo, rep: Report) -> None:
     rep.ob("R4-sample-once", sm_, f"sample(period, scheduler): `{short(ivs[0], 50) if ivs else '?'}` ticks on the given scheduler", okv,
            "sample(period, scheduler) builds its sampler without the scheduler it was given: the ticks come from the default (real-time) "
            "scheduler, not from the timeline the caller pinned the operator to")
+    # the source is subscribed before the sampler: an element and a tick at the same instant -> the element is sampled by that tick
+    so_ = repo.fn(SM, "sample_observable.subscribe")
+    from ..model import is_subscribe_call as _isc2
+    subs2 = [x for x in sites(so_) if _isc2(x.node)]
+    src_nm, smp_nm = repo.fn(SM, "sample_observable").params[:2]
+    pos_ = lambda x: (x.node.lineno, x.node.col_offset)
+    s_src = [x for x in subs2 if u(x.node.func.value) == src_nm]
+    s_smp = [x for x in subs2 if u(x.node.func.value) == smp_nm]
+    rep.ob("R4-sample-once", so_, f"sample: {src_nm}.subscribe(...) is evaluated before {smp_nm}.subscribe(...)", bool(s_src) and bool(s_smp) and pos_(s_src[0]) < pos_(s_smp[0]),
+           "sample subscribes the sampler before the source: with both on one scheduler a tick scheduled for an instant runs before the source "
+           "element of the same instant, so that element is emitted one tick late (or overwritten and never emitted)")
     ss = repo.fn(SM, "sample_observable.subscribe.sample_subscribe")
     sroot = repo.fn(SM, "sample_observable.subscribe")
     src_next = sroot.child("on_next")
